@@ -739,6 +739,10 @@ class Interp:
                 base.items[nf.as_int(idx.nf)] = v
             else:
                 base.parts.append((idx, v))
+                a = self.single_atom(idx.nf) if isinstance(idx, Num) else None
+                if a is not None and a[0] == "fn" and a[1] == "argsort" and isinstance(v, Vec) and not v.over and v.gen == nf.sym(J) and len(base.parts) == 1 and not base.items:
+                    # buf[order] = arange(n) with order a permutation (argsort): buf is the inverse permutation
+                    base.kwargs = dict(base.kwargs or {}, invperm_of=idx)
             return
         if isinstance(base, Vec) and isinstance(idx, Num):
             k = nf.as_int(idx.nf)
@@ -937,7 +941,7 @@ class Interp:
         if isinstance(v, Vec):
             return Vec(f(v.gen), v.length, {k: (p, f(x)) for k, (p, x) in v.over.items()})
         if isinstance(v, TupV):
-            return TupV([self._map1(x, f) for x in v.items], v.is_list)
+            return TupV([self._map1(x, f) for x in v.items], v.is_list, rowview=v.rowview, arr=True)
         return Num(f(self.to_nf(v)))
 
     def _e_BinOp(self, n, env):
@@ -954,7 +958,7 @@ class Interp:
             return StrV(a.s + b.s)
         if isinstance(a, StrV) or isinstance(b, StrV):
             return StrV("<str-expr>")
-        if isinstance(op, ast.Add) and isinstance(a, TupV) and isinstance(b, TupV):
+        if isinstance(op, ast.Add) and isinstance(a, TupV) and isinstance(b, TupV) and not (a.arr or b.arr):
             return TupV(a.items + b.items, a.is_list)
         f = _ARITH.get(type(op))
         if f is None:
@@ -986,15 +990,18 @@ class Interp:
             an = self.to_nf(a)
             return Vec(f(an, b.gen), b.length, {k: (p, f(an, x)) for k, (p, x) in b.over.items()})
         if isinstance(a, TupV) and isinstance(b, TupV) and len(a.items) == len(b.items):
-            return TupV([self._zip2(x, y, f) for x, y in zip(a.items, b.items)], a.is_list)
+            return TupV([self._zip2(x, y, f) for x, y in zip(a.items, b.items)], a.is_list, rowview=a.rowview or b.rowview, arr=a.arr or b.arr)
         if isinstance(a, TupV) and not isinstance(b, TupV):
-            return TupV([self._zip2(x, b, f) for x in a.items], a.is_list)
+            return TupV([self._zip2(x, b, f) for x in a.items], a.is_list, rowview=a.rowview, arr=a.arr)
         if isinstance(b, TupV) and not isinstance(a, TupV):
-            return TupV([self._zip2(a, y, f) for y in b.items], b.is_list)
+            return TupV([self._zip2(a, y, f) for y in b.items], b.is_list, rowview=b.rowview, arr=b.arr)
         return Num(f(self.to_nf(a), self.to_nf(b)))
 
     def _matmul(self, a, b):
         a, b = self._arr_rows(a), self._arr_rows(b)
+        if isinstance(a, TupV) and not a.rowview and a.items and all(isinstance(r, TupV) for r in a.items) and isinstance(b, TupV):
+            # explicit rows @ vector: one dot product per row
+            return TupV([self._matmul(r, b) for r in a.items], True, arr=True)
         if isinstance(a, TupV) and isinstance(b, TupV) and len(a.items) == len(b.items):
             acc = {}
             for x, y in zip(a.items, b.items):
@@ -1300,6 +1307,22 @@ class Interp:
         if isinstance(base, ExtObj):
             if attr in base.attrs:
                 return base.attrs[attr]
+            if attr in ("shape", "size") and base.qual.endswith("curve_fit[0]") and isinstance(base.args.get("of"), ExtObj):
+                # the fitted parameter vector has one entry per entry of the first guess p0
+                p0 = base.args["of"].args.get("p0")
+                n = None
+                if isinstance(p0, TupV) and not p0.rowview:
+                    n = len(p0.items)
+                elif isinstance(p0, Num):
+                    at = self.single_atom(p0.nf)
+                    if at is not None and at[0] == "fn" and at[2]:
+                        for x in at[2]:
+                            xa = self.single_atom(nf.unkey(x))
+                            if xa is not None and xa[0] == "fn" and xa[1] in ("tuple", "list"):
+                                n = len(xa[2])  # an opaque method of the package given a literal guess: same length back
+                                break
+                if n is not None:
+                    return TupV([const_num(n)]) if attr == "shape" else const_num(n)
             return BoundExt(base, attr)
         if isinstance(base, Vec):
             if attr == "shape":
@@ -1319,7 +1342,7 @@ class Interp:
         nm = a[1] if a is not None and a[0] == "sym" else None
         if nm is not None and nm in self.attr_as_key and attr not in _TABLE_METHODS:
             return self._index(base, StrV(attr), node)
-        if attr in _TABLE_METHODS:
+        if attr in _TABLE_METHODS or attr in ("ravel", "flatten", "reshape", "tolist", "squeeze", "item", "tobytes", "argsort", "round", "clip", "all", "any", "dot", "fill", "view", "transpose", "take", "repeat", "cumprod", "std", "var", "argmax", "argmin", "nonzero", "searchsorted", "sort"):
             return BoundExt(base, attr)
         if nm is not None:
             return sym_num(f"{nm}.{attr}")
@@ -1334,7 +1357,26 @@ class Interp:
         idx = self.eval(n.slice, env)
         return self._index(base, idx, n)
 
+    def _loop_mask(self, buf):
+        """A boolean buffer filled position by position in an index loop - mask[i] = P(i) as its only store, zeros (False)
+        elsewhere: the element-wise mask P(position).  Returns its term with the loop counter as the position symbol."""
+        if not (isinstance(buf, Buf) and len(buf.parts) == 1 and not buf.items):
+            return None
+        idx, val = buf.parts[0]
+        if not (isinstance(idx, Num) and isinstance(val, BoolV)):
+            return None
+        at = self.single_atom(idx.nf)
+        if at is None or at[0] != "sym":
+            return None
+        if not (isinstance(buf.fill, Num) and not buf.fill.nf):
+            return None
+        return nf.subst_sym(self.to_nf(val), {at[1]: nf.sym(J)})
+
     def _index(self, base, idx, node):
+        if isinstance(idx, Buf) and isinstance(base, Num):
+            m_ = self._loop_mask(idx)
+            if m_ is not None:
+                return Num(nf.fn("rows", base.nf, m_))
         if isinstance(base, DictV) and isinstance(idx, BoolV) and set(base.items) == {"True", "False"} and not base.fallback:
             # a two-entry dispatch table read with a truth value: the elementwise form of  a if P else b
             return base.items["True"] if self.decide(idx, node) else base.items["False"]
@@ -1374,6 +1416,8 @@ class Interp:
                 if lo is not False and hi is not False:
                     return TupV(base.items[lo:hi], base.is_list)
             return Num(nf.fn("[]", self.to_nf(base), self.to_nf(idx)))
+        if isinstance(base, Buf) and isinstance(idx, Num) and isinstance((base.kwargs or {}).get("invperm_of"), Num) and len(base.parts) == 1:
+            return Num(nf.fn("[]", nf.fn("invperm", base.kwargs["invperm_of"].nf), idx.nf))
         if isinstance(base, Buf):
             if isinstance(idx, Num) and nf.as_int(idx.nf) is not None and nf.as_int(idx.nf) in base.items:
                 return base.items[nf.as_int(idx.nf)]
@@ -1416,12 +1460,69 @@ class Interp:
             if lo is not False and hi is not False and (lo or 0) >= 0 and (hi is None or hi <= 0):
                 v = Vec(nf.fn("[]", bn, nf.sym(J)), nf.fn("len", bn))
                 return self._slice_vec(v, idx)
+        if isinstance(idx, Num) and isinstance(base, Num):
+            r = self._gather(bn, idx.nf)
+            if r is not None:
+                return Num(r)
         hk = (nf.key(bn), nf.key(self.to_nf(idx)))
         if isinstance(idx, StrV):
             self.log("read_sub", node, base=base, key=idx.s, stored=hk in self.heap)
         if hk in self.heap:
             return self.heap[hk]
         return Num(self._sub_atom(bn, idx))
+
+    def _gather(self, bn, ix):
+        """Exact identities of fancy indexing (gather) by index arrays, applied structurally:
+             uniq(x)[uniq_inv(x)]            == x
+             A[P][invperm(P)[Q]]             == A[Q]          (P a permutation: an argsort)
+             (call of an element-wise table function on A)[Q] == the same call on A[Q]   (interp1d objects)
+        returns the rewritten term or None"""
+        a = self.single_atom(bn)
+        q = self.single_atom(ix)
+        # x[uniq_first(x)] == uniq(x)   and   x[uniq_first(x)[P]] == uniq(x)[P]
+        if a is not None and q is not None and q[0] == "fn":
+            if q[1] == "uniq_first" and nf.unkey(q[2][0]) == bn:
+                return nf.fn("uniq", bn)
+            if q[1] == "[]" and len(q[2]) == 2:
+                q0 = self.single_atom(nf.unkey(q[2][0]))
+                if q0 is not None and q0[0] == "fn" and q0[1] == "uniq_first" and nf.unkey(q0[2][0]) == bn:
+                    return nf.fn("[]", nf.fn("uniq", bn), nf.unkey(q[2][1]))
+        if a is None or a[0] != "fn":
+            return None
+        # uniq(x)[uniq_inv(x)]
+        if a[1] == "uniq" and q is not None and q[0] == "fn" and q[1] == "uniq_inv" and q[2] == a[2]:
+            return nf.unkey(a[2][0])
+        # A[P][invperm(P)[Q]]
+        if a[1] == "[]" and len(a[2]) == 2 and q is not None and q[0] == "fn" and q[1] == "[]" and len(q[2]) == 2:
+            P = self.single_atom(nf.unkey(a[2][1]))
+            inv = self.single_atom(nf.unkey(q[2][0]))
+            if P is not None and P[0] == "fn" and P[1] == "argsort" and inv is not None and inv[0] == "fn" and inv[1] == "invperm" and nf.unkey(inv[2][0]) == nf.unkey(a[2][1]):
+                A, Q = nf.unkey(a[2][0]), nf.unkey(q[2][1])
+                r = self._gather(A, Q)
+                return r if r is not None else nf.fn("[]", A, Q)
+        # element-wise call: f(A)[Q] == f(A[Q]) for table interpolators called with one array argument
+        if a[2] and (a[1].startswith("call:") and ("interp1d" in a[1] or "_func" in a[1]) or a[1].endswith(".m_scaled_func") or a[1].endswith(".alpha")) and len(a[2]) >= 1:
+            arg = nf.unkey(a[2][-1])
+            inner = self._gather(arg, ix)
+            if inner is not None:
+                return nf.fn(a[1], *[nf.unkey(x) for x in a[2][:-1]], inner)
+            va = self.single_atom(arg)
+            if va is not None and va[0] == "fn" and va[1] == "vec" and len(va[2]) == 2 and not nf.depends(ix, J):
+                # element `ix` of an element-wise function of an explicit vector without stored positions
+                return nf.fn(a[1], *[nf.unkey(x) for x in a[2][:-1]], nf.subst_sym(nf.unkey(va[2][0]), {J: ix}))
+        # a scalar function of the package evaluated per element of a sequence (comprehension / loop over X[P]): element
+        # ix of the results is the function at element ix of the sequence - applies when exactly one argument is such a
+        # permuted sequence
+        if a[1].startswith("bluebonnet.") and a[1] in self.opaque:
+            hits = []
+            for k_, x in enumerate(a[2]):
+                g = self._gather(nf.unkey(x), ix)
+                if g is not None:
+                    hits.append((k_, g))
+            if len(hits) == 1:
+                k_, g = hits[0]
+                return nf.fn(a[1], *[g if j == k_ else nf.unkey(x) for j, x in enumerate(a[2])])
+        return None
 
     def _sub_atom(self, bn, idx):
         """Canonical subscript atom; simple index composition base[:, :k][:, j] -> base[:, j]."""
@@ -1760,10 +1861,21 @@ class Interp:
         return res
 
     def _call_method(self, recv, meth, args, kwargs, node):
+        if isinstance(recv, ExtObj) and recv.qual.startswith("scipy.sparse.") and meth in ("tocsr", "tocsc", "tocoo", "todia", "asformat", "copy", "tolil"):
+            return recv  # the same matrix in another storage format
+        if meth == "cumsum" and "axis" in kwargs and isinstance(kwargs["axis"], NoneV):
+            kwargs = {k: v for k, v in kwargs.items() if k != "axis"}  # axis=None is the default
         if meth == "__setattr__" and isinstance(recv, SuperV) and len(args) == 2 and isinstance(args[0], StrV):
             self.store_attribute(recv.inst, args[0].s, args[1], node, raw=True)
             return NoneV()
         if isinstance(recv, (Num, Vec, Buf, TupV)):
+            if meth == "reshape" and isinstance(recv, Num) and "order" not in kwargs:
+                return recv  # the same elements in the same (C) order: an opaque array stands for its generic element
+            if meth in ("flatten", "ravel") and (kwargs or args):
+                # ravel(order="K" / "F" / "A") walks memory or column order: not the element sequence of the array
+                od = kwargs.get("order", args[0] if args else None)
+                if not (isinstance(od, StrV) and od.s == "C"):
+                    return Num(nf.fn("ravel:" + (od.s if isinstance(od, StrV) else "?"), self.to_nf(recv)))
             if meth in ("copy", "astype", "to_records", "to_numpy", "flatten", "ravel", "tolist", "reset_index"):
                 return recv.copy() if isinstance(recv, Vec) else recv
             if meth in ("sum", "min", "max", "mean", "cumsum", "prod", "any", "all") and not isinstance(recv, TupV):
@@ -1980,6 +2092,11 @@ def _h_unary(f):
 
 
 def _h_identity(it, args, kwargs, bound, node, qual):
+    if qual == "numpy.atleast_1d" and len(args) == 1 and isinstance(args[0], Num) and not getattr(it, "array_mode", False) and getattr(it, "scalar_inputs", True):
+        # scalar analysis mode: the argument is a 0-d value, atleast_1d makes it a one-element sequence
+        at = it.single_atom(args[0].nf)
+        if at is None or at[0] != "fn" or at[1] not in ("[]",):
+            return TupV([args[0]], True)
     if len(args) >= 1:
         if qual in ("numpy.array", "numpy.copy", "copy.copy", "copy.deepcopy") and isinstance(args[0], Vec):
             return args[0].copy()  # a new array: later in-place writes do not reach the original
@@ -2266,6 +2383,10 @@ def _h_zip(it, args, kwargs, bound, node, qual):
 
 def _h_map(it, args, kwargs, bound, node, qual):
     """map(f, s, ...) over literal sequences: the literal tuple of the calls f(s[k], ...)"""
+    if len(args) == 2 and not kwargs and isinstance(args[1], (Num, Vec)):
+        # map(f, array): f at the generic element, like the comprehension [f(x) for x in array]
+        it.log("for_iter", node, iter=args[1], comprehension=True)
+        return it.call(args[0], [it._element_of(args[1])], {}, node, None)
     if len(args) < 2 or kwargs or not all(isinstance(a, TupV) and not a.rowview for a in args[1:]):
         return None
     n = min(len(a.items) for a in args[1:])
@@ -2363,6 +2484,40 @@ def _h_select(it, args, kwargs, bound, node, qual):
     return b
 
 
+def _h_unique(it, args, kwargs, bound, node, qual):
+    """np.unique(x, return_index=..., return_inverse=...): named parts of one decomposition of x -
+    uniq(x)[uniq_inv(x)] == x is the identity the interpreter knows about them"""
+    if len(args) != 1 or set(kwargs) - {"return_index", "return_inverse", "return_counts"}:
+        return None
+    flags = {}
+    for k in ("return_index", "return_inverse", "return_counts"):
+        v = kwargs.get(k)
+        if v is None:
+            flags[k] = False
+        elif isinstance(v, BoolV) and v.kind == "const":
+            flags[k] = bool(v.a)
+        else:
+            return None
+    x = it.to_nf(args[0])
+    parts = [Num(nf.fn("uniq", x))]
+    if flags["return_index"]:
+        parts.append(Num(nf.fn("uniq_first", x)))
+    if flags["return_inverse"]:
+        parts.append(Num(nf.fn("uniq_inv", x)))
+    if flags["return_counts"]:
+        parts.append(Num(nf.fn("uniq_counts", x)))
+    return parts[0] if len(parts) == 1 else TupV(parts)
+
+
+def _h_argsort(it, args, kwargs, bound, node, qual):
+    if len(args) != 1 or set(kwargs) - {"kind", "axis"}:
+        return None
+    ax = kwargs.get("axis")
+    if ax is not None and not isinstance(ax, NoneV):
+        return None
+    return Num(nf.fn("argsort", it.to_nf(args[0])))
+
+
 def _h_mappingproxy(it, args, kwargs, bound, node, qual):
     """types.MappingProxyType(d): a read-only view of d - the same mapping for every read"""
     if len(args) == 1 and not kwargs and isinstance(args[0], DictV):
@@ -2413,15 +2568,25 @@ def _h_where(it, args, kwargs, bound, node, qual):
     if len(args) == 3 and isinstance(args[0], BoolV):
         # np.where(x < c, c, x) / np.where(x > c, x, c) ... are the elementwise clamps maximum(x, c) / minimum(x, c)
         t = args[0]
-        if t.kind == "cmp" and isinstance(args[1], Num) and isinstance(args[2], Num):
+        if t.kind == "or":
+            # (x <= c) | np.isnan(x): the NaN clause only reproduces np.minimum / np.maximum's NaN propagation
+            for cmp_, other in ((t.a, t.b), (t.b, t.a)):
+                if isinstance(cmp_, BoolV) and cmp_.kind == "cmp":
+                    on = it.to_nf(other)
+                    oa = it.single_atom(on)
+                    if oa is not None and oa[0] == "fn" and oa[1].split("{")[0] in ("numpy.isnan", "isnan", "math.isnan") and len(oa[2]) == 1 and nf.unkey(oa[2][0]) in (cmp_.a, cmp_.b):
+                        t = cmp_
+        if t.kind == "cmp" and isinstance(args[1], (Num, Vec)) and isinstance(args[2], (Num, Vec)):
             l, r, sym = t.a, t.b, t.op
-            a1, a2 = args[1].nf, args[2].nf
+            a1, a2 = it.to_nf(args[1]), it.to_nf(args[2])
             if sym in ("<", "<=", ">", ">=") and {nf.key(a1), nf.key(a2)} == {nf.key(l), nf.key(r)} and nf.key(l) != nf.key(r):
                 # picks the larger operand when (l < r and a1 is r) or (l > r and a1 is l)
                 takes_right = nf.key(a1) == nf.key(r)
                 larger = takes_right if sym in ("<", "<=") else not takes_right
                 name = "maximum" if larger else "minimum"
-                return _h_fn(name, sort=True)(it, [Num(l), Num(r)], {}, {}, node, "numpy." + name)
+                lv = args[1] if nf.key(a1) == nf.key(l) else args[2]
+                rv = args[2] if lv is args[1] else args[1]
+                return _h_fn(name, sort=True)(it, [lv, rv], {}, {}, node, "numpy." + name)
         # np.where(P, a, b) is the elementwise form of `a if P else b`: partition on P
         return args[1] if it.decide(args[0], node) else args[2]
     if len(args) == 3:
@@ -2540,6 +2705,8 @@ _EXT_HANDLERS = {
     "dict": _h_dict,
     "types.MappingProxyType": _h_mappingproxy,
     "bool": _h_bool,
+    "numpy.unique": _h_unique,
+    "numpy.argsort": _h_argsort,
     "numpy.select": _h_select,
     "numpy.average": _h_average,
     **{"numpy." + k: _h_ufunc for k in ("add", "subtract", "multiply", "divide", "true_divide", "power", "float_power", "negative", "square")},
